@@ -36,6 +36,9 @@ Section Inst.
   (* the same functions over the reference semantics *)
   Definition r_cb_run := cb_run a_ops i_tgt0 i_teq0 0 (clock_of tab) h unit (fun _ _ => 0) (fun _ => tt).
   Definition r_run := run a_ops N.eqb i_tgt0 i_teq0 0 (clock_of tab) (pstate_eqb N.eqb) h unit (fun _ _ => 0) (fun _ => tt).
+  Definition r_run_from_states :=
+    run_from_states a_ops N.eqb i_tgt0 i_teq0 0 (clock_of tab) (pstate_eqb N.eqb) h unit (fun _ _ => 0) (fun _ => tt)
+                    (tr_cmp (T := N)).
   Definition r_take_choice := take_choice a_ops i_tgt0 i_teq0 0 (clock_of tab) h unit (fun _ _ => 0) (fun _ => tt).
   Definition r_all_choices := all_choices a_ops (PS := pstate N).
   Definition r_get_state := get_state (T := N) (SE := astore N) (PS := pstate N).
